@@ -360,6 +360,11 @@ def jobs(tier):
         for ops in itertools.product(small, repeat=3):
             out.append(('history', 'case_history', dict(
                 model='one_compartment_pk_model', ops=list(ops)), FACADE))
+    if q:
+        # output selection / renaming histories (the name tables)
+        for ops in itertools.product(['RO', 'O1', 'O2', 'RP'], repeat=3):
+            out.append(('history', 'case_history', dict(
+                model='one_compartment_pk_model', ops=list(ops)), FACADE))
     # dosed model, then every pair of further operations
     suffix = ['S+', 'S-', 'C', 'Co', 'O1', 'RP', 'D1']
     for a_ in ('Ad', 'Ai'):
@@ -382,7 +387,7 @@ def jobs(tier):
 BOUNDS = dict(
     quick='library one-compartment model; all 12 + 144 histories of <= 2 '
           'operations, all 216 histories of 3 operations over {Ad, Ai, D1, D2, '
-          'S+, C}; all 196 four-step histories (administration, regimen, two '
+          'S+, C} and all 64 over {RO, O1, O2, RP}; all 196 four-step histories (administration, regimen, two '
           'of {S+, S-, C, Co, O1, RP, D1}); '
           'operations over {Ad, Ai, D1, D2, O1, O2, RP, RO, S+, S-, C, Co} '
           'plus 5 targeted histories of length 4-6; ReducedMechanisticModel '
